@@ -21,10 +21,17 @@ def subsets(w):
     return [list(s) for k in range(w + 1) for s in itertools.combinations(range(w), k)]
 
 
+ICOEFS = [F(2), F(-5), F(3)]
+
+
 def operators(w, T):
-    """list of operator descriptors: [[coef(as [num,den]), qubits], ...]"""
+    """list of operator descriptors: [[coef(as [num,den]), qubits], ...]; a denominator of 0 marks a Python-int coefficient"""
     S = subsets(w)
     out = []
+    # operators whose coefficients are ALL Python ints (dtype inference must not truncate the statistics)
+    for k in range(1, min(T, 3) + 1):
+        for combo in itertools.product(S, repeat=k):
+            out.append([[[int(ICOEFS[i]), 0], s] for i, s in enumerate(combo)])
     for s in S:
         for c in COEFS:
             out.append([[[c.numerator, c.denominator], s]])
@@ -36,7 +43,7 @@ def operators(w, T):
 
 def mk_operator(desc, as_sum=True):
     from orquestra.quantum.operators import PauliTerm, PauliSum
-    terms = [PauliTerm({q: "Z" for q in qs}, c[0] / c[1]) for c, qs in desc]
+    terms = [PauliTerm({q: "Z" for q in qs}, (c[0] / c[1]) if c[1] else int(c[0])) for c, qs in desc]
     if len(terms) == 1 and not as_sum:
         return terms[0]
     return PauliSum(terms)
@@ -59,7 +66,7 @@ def stats_case(case):
     for desc in ops:
         for as_sum in ((True, False) if len(desc) == 1 else (True,)):
             op = mk_operator(desc, as_sum)
-            cs = [F(c[0], c[1]) for c, _ in desc]
+            cs = [F(c[0], c[1] or 1) for c, _ in desc]
             v = [[rs.eig(s, qs) for s in shots] for _, qs in desc]
             means = [cs[i] * rs.mean([F(x) for x in v[i]]) for i in range(len(desc))]
             corr = [[cs[i] * cs[j] * rs.mean([F(a * b) for a, b in zip(v[i], v[j])]) for j in range(len(desc))] for i in range(len(desc))]
@@ -165,6 +172,44 @@ def nonising_case(case):
     return {"ok": True, "nt": True, "ops": 2, "out": "TypeError"}
 
 
+DICT_EVENTS = [["fq"], ["inc", "01", 2], ["inc", "11", 1], ["new", "10", 3], ["set", "01", 1], ["del", "11"]]
+
+
+def dict_history_case(case):
+    """{'hist': [...]}: get_expectation_value_from_frequencies on ONE histogram dict that the caller keeps updating in place"""
+    from orquestra.quantum.measurements import get_expectation_value_from_frequencies
+    hist = {"01": 1, "11": 2}
+    k = 0
+
+    def query(step):
+        nonlocal k
+        for qs in ([0], [1], [0, 1], []):
+            k += 1
+            N = sum(hist.values())
+            exp = sum(F(v) * rs.eig(tuple(int(c) for c in b), qs) for b, v in hist.items()) / N
+            got = get_expectation_value_from_frequencies(qs, hist)
+            if abs(got - float(exp)) > TOL:
+                return {"ok": False, "msg": "expectation from frequencies on qubits %s after %s is not that of the histogram passed (stale state?)" % (qs, step), "expected": str(exp), "observed": got,
+                        "sig": "dict-history", "ops": k}
+        return None
+    for n, e in enumerate(case["hist"]):
+        if e[0] == "fq":
+            bad = query("event %d" % n)
+            if bad:
+                return bad
+        elif e[0] in ("inc", "new"):
+            hist[e[1]] = hist.get(e[1], 0) + e[2]
+        elif e[0] == "set":
+            hist[e[1]] = e[2]
+        elif e[0] == "del":
+            if e[1] in hist and len(hist) > 1:
+                del hist[e[1]]
+    bad = query("the last event")
+    if bad:
+        return bad
+    return {"ok": True, "nt": any(e[0] == "fq" for e in case["hist"]) and any(e[0] != "fq" for e in case["hist"]), "ops": k, "out": "dict"}
+
+
 EVENTS = [["q"], ["replace", [[1, 1], [0, 0], [0, 1]]], ["replace", [[0, 0], [0, 0], [0, 0]]], ["edit", 0, [1, 0]], ["edit", -1, [0, 0]],
           ["add_counts", {"11": 1}], ["add_counts", {"01": 2, "10": 1}], ["append", [1, 1]], ["pop"]]
 
@@ -234,7 +279,7 @@ def history_case(case):
             "key": str(sorted(model)), "out": "N%d" % len(model)}
 
 
-FUNCS = {"histories": history_case, "statistics": stats_case, "counts": counts_case, "nonising": nonising_case}
+FUNCS = {"dict_histories": dict_history_case, "histories": history_case, "statistics": stats_case, "counts": counts_case, "nonising": nonising_case}
 
 
 def multisets(w, Nmax):
@@ -267,4 +312,6 @@ def run(run):
     hs = [{"hist": [EVENTS[i] for i in combo]} for d in range(0, D + 1) for combo in itertools.product(range(len(EVENTS)), repeat=d)]
     secs.append(Section("histories", hs, history_case, desc="every history of <=%d events (query / replace / in-place edit / add_counts / append / pop) on one Measurements object; "
                         "every query must report the statistics of the current shots" % D))
+    dh = [{"hist": [DICT_EVENTS[i] for i in combo]} for d in range(0, D + 1) for combo in itertools.product(range(len(DICT_EVENTS)), repeat=d)]
+    secs.append(Section("dict_histories", dh, dict_history_case, desc="every history of <=%d in-place updates / queries on one histogram dict passed to get_expectation_value_from_frequencies" % D))
     run.run_sections(secs)
